@@ -370,6 +370,9 @@ impl ByteSeries {
                 .all(|w| w[0].data().len() >= w[1].data().len()),
             "downsampled must be sorted in descending resolution/numb lines"
         );
+        if n == 0 {
+            return Ok(());
+        }
 
         let start = range.start_bound().cloned();
         let end = range.end_bound().cloned();
@@ -446,6 +449,9 @@ impl ByteSeries {
         timestamps: &mut Vec<Timestamp>,
         data: &mut Vec<D::Item>,
     ) -> Result<(), Error> {
+        if n == 0 {
+            return Ok(());
+        }
         let Some(seek) = seek::RoughPos::new(
             &self.data,
             range.start_bound().cloned(),
